@@ -60,7 +60,10 @@ def apply(b, cs, op):
 
 
 def observe(sb, cs):
-    b = unsnap(sb)
+    return _observe(unsnap(sb), cs)
+
+
+def _observe(b, cs):
     msgs = []
     try:
         nlv = float(b.net_liquidation_value(False))
@@ -116,7 +119,118 @@ def search(unit):
     return res
 
 
+# ---------------------------------------------------------------------------
+# two accounts on ONE exchange (e.g. a strategy and its benchmark account fed by the same quotes): each account's invariant must
+# hold whenever IT is valued, whatever the other account did with the shared books in between
+
+def twin_alphabet(n):
+    ops = [("q", c, k) for c in range(n) for k in range(len(QUOTES))]
+    ops += [("t", who, c, dq) for who in (0, 1) for c in range(n) for dq in (1.0, -1.0)]
+    ops += [("v", 0), ("v", 1)]
+    return ops
+
+
+def twin_initial(universe, deposit):
+    cs = ledger.contracts_of(universe)
+    ex = make_exchange(cs, QUOTES[0], 0.0)
+    mk = lambda: Broker(ex, deposit=deposit, fees=BrokerFees(markup=0.0, interest_rate=RATE, proportional=0.0, fixed=0.0))
+    return (mk(), mk()), cs
+
+
+def twin_apply(pair, cs, op):
+    if op[0] == "q":
+        return apply(pair[0], cs, op)
+    if op[0] == "t":
+        return ["account %d: %s" % (op[1], m) for m in apply(pair[op[1]], cs, ("t", op[2], op[3]))]
+    pair[op[1]].net_liquidation_value(False)
+    return []
+
+
+def twin_observe(spair, cs):
+    msgs = []
+    for order in ((0, 1), (1, 0)):
+        pair = unsnap(spair)        # one pickle: the two copies still share ONE exchange
+        for who in order:
+            msgs += ["account %d (valued %s the other one): %s" % (who, "after" if who == order[1] else "before", m)
+                     for m in observe_live(pair[who], cs)]
+        if msgs:
+            break
+    return msgs
+
+
+def observe_live(b, cs):
+    return _observe(b, cs)
+
+
+def search_twin(unit):
+    universe, deposit, depth, first = unit
+    reset_clock()
+    p0, cs = twin_initial(universe, deposit)
+    ops = twin_alphabet(len(cs))
+    res = {"states": 0, "transitions": 0, "violations": []}
+    seen = set()
+    frontier = deque([(snap(p0), (), first)])
+    while frontier:
+        sp, hist, forced = frontier.popleft()
+        for op in ([forced] if forced is not None else ops):
+            pair = unsnap(sp)
+            try:
+                msgs = twin_apply(pair, cs, op)
+            except Exception as ex:
+                msgs = ["operation raised %r" % (ex,)]
+            res["transitions"] += 1
+            nh = hist + (op,)
+            nsp = snap(pair)
+            if not msgs:
+                msgs = twin_observe(nsp, cs)
+            if msgs:
+                res["violations"].append((nh, "; ".join(msgs[:2])))
+                continue
+            k = (broker_key(pair[0], cs), broker_key(pair[1], cs))
+            if k in seen:
+                continue
+            seen.add(k)
+            if len(nh) < depth:
+                frontier.append((nsp, nh, None))
+    res["states"] = len(seen)
+    return res
+
+
+def run_twin(rep, tier):
+    from mcx.ledger import palette
+    _, deposit = palette()
+    depth = 3 if tier == "quick" else 4
+    units = [(u, deposit, depth, op) for u in ("fut+fut", "spot1+fut") for op in twin_alphabet(2)]
+    st = tr = 0
+    for (universe, _, _, _), r in zip(units, pmap(search_twin, units)):
+        st += r["states"]
+        tr += r["transitions"]
+        for hist, msg in r["violations"]:
+            rep.violation({"part": "twin", "universe": universe, "deposit": deposit, "history": [list(o) for o in hist]},
+                          "%s, two accounts on one exchange, after history %s: %s" % (universe, list(hist), msg),
+                          group=("twin", universe, msg.split(" ")[0], len(hist)))
+    rep.add("states", st)
+    rep.add("transitions", tr)
+    rep.add("traces_validated_against_impl", tr)
+    rep.set("twin_part", {"depth": depth, "states_upper_bound": st, "transitions": tr, "alphabet": [list(o) for o in twin_alphabet(2)],
+                          "oracle": "C05 invariant for each of two accounts sharing one exchange, each valued before and after the other"})
+
+
+def replay_twin(case):
+    reset_clock()
+    pair, cs = twin_initial(case["universe"], case["deposit"])
+    msgs = []
+    for op in case["history"]:
+        msgs = twin_apply(pair, cs, tuple(op))
+        if not msgs:
+            msgs = twin_observe(snap(pair), cs)
+        if msgs:
+            break
+    return msgs
+
+
 def run_part(rep, tier):
+    run_twin(rep, tier)
     from mcx.ledger import palette
     _, deposit = palette()
     depth = 4 if tier == "quick" else 5
@@ -142,6 +256,8 @@ def run_part(rep, tier):
 
 
 def replay(case):
+    if case.get("part") == "twin":
+        return replay_twin(case)
     reset_clock()
     b, cs = initial(case["universe"], case["deposit"])
     msgs = []
